@@ -692,7 +692,10 @@ def written_vars(el):
 def addr_taken_args(callnode):
     """paths whose address is passed to a call (may be written by callee)."""
     out = set()
-    for a in callnode.get("args", []):
+    cp = callnode.get("constp") or []
+    for k, a in enumerate(callnode.get("args", [])):
+        if k < len(cp) and cp[k]:
+            continue
         a2 = strip(a)
         if a2 and a2.get("k") == "un" and a2["op"] == "&":
             p = path(a2["e"])
